@@ -60,6 +60,9 @@ class Runner:
         self.known_hits = {}  # finding id -> count
         self.unreproduced = []
         self.unrepresentable_cex = []
+        self.exact_compare = False
+        self.extra_violations = []
+        self.inexact = []
         self.mismatches = []
         self.replayed = 0
         self.extra = {}
@@ -137,6 +140,10 @@ class Runner:
             if not jobs.same_digest(l["digest"], dg):
                 l["mismatch"] = True
                 self.mismatches.append(dict(spec=res["spec"], env=l["env"], symbolic=l["digest"], plain=dg))
+            elif self.exact_compare:
+                diffs = jobs.exact_diffs(l["digest"], dg)
+                if diffs:
+                    self.inexact.append(dict(spec=res["spec"], env=l["env"], diffs=diffs[:6]))
         for v, c in zip(res["violations"], rep["confirms"]):
             v["reproduced"] = c["reproduced"]
             v["text"] = c["text"]
@@ -151,7 +158,7 @@ class Runner:
     # ---------------------------------------------------------------- verdicts
     def classify(self):
         known = [k for k in load_known().get("findings", []) if k["property"] == self.prop]
-        for res in self.results:
+        for res in list(self.results) + [dict(ok=True, violations=self.extra_violations)]:
             if not res.get("ok"):
                 continue
             for v in res["violations"]:
